@@ -226,6 +226,9 @@ func checkC07(c *Ctx) {
 	// ---- C07-ID: comparison never short-cuts on object identity (NaN is unequal to itself)
 	c.checkNoIdentityShortcut()
 
+	// ---- C07-WRAP: the places where a 64-bit result could silently become another number
+	c.checkIntegerResultWidth(scope)
+
 	// ---- C07-OPS (AST)
 	c.checkCompareOps()
 
@@ -900,9 +903,24 @@ func (c *Ctx) checkFloatQuotientAfterModulo(scope []*ssa.Function) {
 					return false, false
 				}
 				return true, bo.Op == token.NEQ
+			}) || guardedBy(b, func(cond ssa.Value) (bool, bool) {
+				// or on the `== 0` side: the modulo has been evaluated there too (the min / -1 case)
+				bo, ok := cond.(*ssa.BinOp)
+				if !ok || (bo.Op != token.EQL && bo.Op != token.NEQ) {
+					return false, false
+				}
+				k, isK := constIntOf(bo.Y)
+				rem, isRem := bo.X.(*ssa.BinOp)
+				if !isK || k != 0 || !isRem || rem.Op != token.REM {
+					return false, false
+				}
+				if !sameFieldLoad(rem.X, cx.X) || !sameFieldLoad(rem.Y, cy.X) {
+					return false, false
+				}
+				return true, bo.Op == token.EQL
 			})
 			c.check(guarded, "C07-DIV0", fnName(f), "float quotient of two integers "+typeShort(cx.X.Type()), q.Pos(),
-				"reached only on the `a % b != 0` side of the modulo test: a zero divisor has already raised the division error",
+				"reached only behind the modulo test (either outcome): the modulo has been evaluated, so a zero divisor has already raised the division error",
 				"the float quotient of two integers can be reached without the integer modulo having been evaluated (for instance behind a `b != 0 &&` guard): an integer divided by the integer zero quietly becomes +Inf, -Inf or NaN instead of an error")
 		})
 	}
@@ -950,4 +968,155 @@ func (c *Ctx) checkNoIdentityShortcut() {
 	if nBad == 0 {
 		c.ok("C07-ID", "comparisons.go", "operands compared by identity", token.NoPos, fmt.Sprintf("%d interface comparisons in the comparison code, all against nil or a sentinel", n))
 	}
+}
+
+// checkIntegerResultWidth: C07-WRAP.
+//  (a) a signed integer quotient is guarded against the one pair that overflows (min / -1);
+//  (b) an integer result is not obtained by converting math.Pow's float64 back, except on a
+//      path that has compared the exponent with 0 (negative exponents);
+//  (c) a 64-bit result is narrowed to a char only behind a test that it survives the round trip.
+func (c *Ctx) checkIntegerResultWidth(scope []*ssa.Function) {
+	nq, np, nn := 0, 0, 0
+	for _, f := range scope {
+		eachInstr(f, func(b *ssa.BasicBlock, i int, in ssa.Instruction) {
+			switch x := in.(type) {
+			case *ssa.BinOp:
+				if x.Op != token.QUO {
+					return
+				}
+				bits, uns, isInt := intBits(x.X.Type())
+				if !isInt || uns || bits != 64 {
+					return
+				}
+				if _, isK := x.Y.(*ssa.Const); isK {
+					return
+				}
+				// only quotients that become a language integer
+				toInt := false
+				var useBlk *ssa.BasicBlock
+				for _, ref := range *x.Referrers() {
+					if st, ok := ref.(*ssa.Store); ok && st.Val == ssa.Value(x) {
+						if fa, ok := st.Addr.(*ssa.FieldAddr); ok {
+							if nm, ok := derefNamed(fa.X.Type()); ok && nm.Obj().Name() == "SexpInt" {
+								toInt = true
+								useBlk = st.Block()
+							}
+						}
+					}
+				}
+				if !toInt {
+					return
+				}
+				nq++
+				// a comparison of the divisor with -1 on the way to the store (the test is `b == -1 && a == min`,
+				// so the store is reached from both of its false edges; what is checked is that the test is made)
+				guarded := false
+				for d := useBlk; d != nil; d = d.Idom() {
+					cond, _, _ := condBranch(d)
+					bo, ok := cond.(*ssa.BinOp)
+					if !ok || (bo.Op != token.EQL && bo.Op != token.NEQ) {
+						continue
+					}
+					if k, ok := constIntOf(bo.Y); ok && k == -1 && sameFieldLoad(bo.X, x.Y) {
+						guarded = true
+					}
+				}
+				c.check(guarded, "C07-WRAP", fnName(f), "signed quotient guarded against min / -1", x.Pos(),
+					"the integer quotient is produced only when the divisor is not -1 (or the dividend not the smallest integer)",
+					"the exact-division branch also takes the smallest integer divided by -1, whose quotient 2^63 does not fit: the result wraps to the same negative number")
+			case *ssa.Convert:
+				_, _, toIntT := intBits(x.Type())
+				if toIntT && isFloatT(x.X.Type()) {
+					if call, ok := x.X.(*ssa.Call); ok {
+						becomes := false
+						for _, ref := range *x.Referrers() {
+							if st, ok := ref.(*ssa.Store); ok && st.Val == ssa.Value(x) {
+								if fa, ok := st.Addr.(*ssa.FieldAddr); ok {
+									if nm, ok := derefNamed(fa.X.Type()); ok && (nm.Obj().Name() == "SexpInt" || nm.Obj().Name() == "SexpUint64") {
+										becomes = true
+									}
+								}
+							}
+						}
+						if g := call.Call.StaticCallee(); becomes && g != nil && fnPkgPath(g) == "math" && g.Name() == "Pow" {
+							np++
+							guarded := guardedBy(b, func(cond ssa.Value) (bool, bool) {
+								bo, ok := cond.(*ssa.BinOp)
+								if !ok {
+									return false, false
+								}
+								if k, ok := constIntOf(bo.Y); ok && k == 0 {
+									switch bo.Op {
+									case token.GEQ:
+										return true, false
+									case token.LSS:
+										return true, true
+									}
+								}
+								return false, false
+							})
+							c.check(guarded, "C07-WRAP", fnName(f), "integer power not taken from float64", x.Pos(),
+								"math.Pow's result becomes an integer only on the negative-exponent path",
+								"an integer power is computed in float64 and converted back: beyond 2^53 the low digits are lost and beyond 2^63 the conversion saturates instead of wrapping")
+						}
+					}
+				}
+				bitsTo, _, okTo := intBits(x.Type())
+				bitsFrom, _, okFrom := intBits(x.X.Type())
+				if okTo && okFrom && bitsFrom == 64 && bitsTo == 32 {
+					// narrowed and then stored as a char's value
+					toChar := false
+					for _, ref := range *x.Referrers() {
+						if st, ok := ref.(*ssa.Store); ok && st.Val == ssa.Value(x) {
+							if fa, ok := st.Addr.(*ssa.FieldAddr); ok {
+								if nm, ok := derefNamed(fa.X.Type()); ok && nm.Obj().Name() == "SexpChar" {
+									toChar = true
+								}
+							}
+						}
+					}
+					if !toChar {
+						return
+					}
+					nn++
+					guarded := guardedBy(b, func(cond ssa.Value) (bool, bool) {
+						bo, ok := cond.(*ssa.BinOp)
+						if !ok || (bo.Op != token.EQL && bo.Op != token.NEQ) {
+							return false, false
+						}
+						// v != int64(rune(v))
+						wide := func(v ssa.Value) bool {
+							cw, ok := v.(*ssa.Convert)
+							if !ok {
+								return false
+							}
+							cn, ok := cw.X.(*ssa.Convert)
+							return ok && sameFieldLoad(cn.X, x.X)
+						}
+						if (sameFieldLoad(bo.X, x.X) && wide(bo.Y)) || (sameFieldLoad(bo.Y, x.X) && wide(bo.X)) {
+							return true, bo.Op == token.EQL
+						}
+						return false, false
+					})
+					c.check(guarded, "C07-WRAP", fnName(f), "64-bit result narrowed to a char only when it fits", x.Pos(),
+						"the result is turned into a char only behind the test v == int64(rune(v))",
+						"a 64-bit arithmetic result is turned into a char unconditionally: only its low 32 bits survive, so (+ 'a' 4294967296) is 'a' and differs from (+ 4294967296 'a')")
+				}
+			}
+		})
+	}
+	if nq < 1 || nn < 1 {
+		c.undecided("C07-WRAP", "numerictower.go", "width-sensitive results", token.NoPos, fmt.Sprintf("found %d signed quotients, %d float powers, %d narrowings", nq, np, nn))
+	}
+}
+
+// condLeaves: the comparisons a short-circuit condition value is made of.
+func condLeaves(v ssa.Value) []ssa.Value {
+	out := []ssa.Value{v}
+	if ph, ok := v.(*ssa.Phi); ok {
+		for _, e := range ph.Edges {
+			out = append(out, e)
+		}
+	}
+	return out
 }
